@@ -9,6 +9,7 @@
 package main
 
 import (
+	"context"
 	"crypto/tls"
 	"fmt"
 	"golang.org/x/net/http2"
@@ -23,6 +24,8 @@ import (
 	"time"
 
 	"golang.org/x/net/http2/hpack"
+
+	fingerproxy "github.com/wi1dcard/fingerproxy"
 
 	"verif/internal/h2peer"
 	"verif/internal/hello"
@@ -51,6 +54,17 @@ func newEnv(run *verdict.Run, be *rig.Backend, th, ti time.Duration, faults func
 			e.acct = rig.NewAcctListener(l)
 			e.acct.PlanFor = faults
 			return e.acct
+		},
+		// "a handler that ignores its context" for requests that ask for it (as in C17): such an exchange
+		// keeps the HTTP/1.1 side draining after the server context is cancelled
+		Tweak: func(app *fingerproxy.VerifApp) {
+			next := app.Server.HTTPServer.Handler
+			app.Server.HTTPServer.Handler = http.HandlerFunc(func(w http.ResponseWriter, r *http.Request) {
+				if r.Header.Get("X-Verif-Detach") != "" {
+					r = r.WithContext(context.WithoutCancel(r.Context()))
+				}
+				next.ServeHTTP(w, r)
+			})
 		},
 	})
 	if err != nil {
@@ -183,7 +197,11 @@ func main() {
 	// request handlers read, and a handler that outlives its connection (client reset the stream and
 	// left) has no synchronisation edge to this goroutine - the race detector would blame /repo for it
 	silentGate := make(chan struct{})
+	drainGate := make(chan struct{})
 	be.PlanFor = func(r *http.Request, tag string) *rig.Plan {
+		if strings.HasPrefix(r.URL.Path, "/drain") {
+			return &rig.Plan{Status: 200, Gate: drainGate, Chunks: [][]byte{[]byte("drained")}}
+		}
 		if strings.HasPrefix(r.URL.Path, "/silent") {
 			return &rig.Plan{Status: 200, Gate: silentGate, Chunks: [][]byte{[]byte("late")}}
 		}
@@ -205,6 +223,10 @@ func main() {
 			e.leavesWhileBackendSilent(silentGate)
 		}
 		e.settle("end of environment " + e.name)
+		if gi == 0 {
+			e.acceptedDuringDrain(drainGate)
+			e.settle("after connections accepted during shutdown")
+		}
 		e.px.Stop()
 	}
 	close(silentGate)
